@@ -47,7 +47,7 @@ def run_case(case):
     b = corpus.build(recipe)
     uf = b.forms[0]
     try:
-        comp = H.jit_forms([uf], {})
+        comp = H.jit_forms([uf], case.get("options", {}))
     except Exception as e:
         return {"verdict": INCONCLUSIVE, "why": f"ffcx did not compile: {type(e).__name__}: {str(e)[:150]}"}
     ffi = comp.ffi
@@ -139,7 +139,8 @@ def run_case(case):
         res["cover"]["cell_q"] = [f"{cellname}|q{p.get('q')}|{itype}|arity{arity}|{kind}"]
     else:
         # mix / qelem: oracle with each integral's own rule + discrimination test
-        obs, desc, orc = VC.run_form(uf, comp, cf, rng, entity_mode="some", entity_limit=3, perm_mode="some", n_data=2)
+        obs, desc, orc = VC.run_form(uf, comp, cf, rng, entity_mode="some", entity_limit=3, perm_mode="some", n_data=2,
+                                     sum_factorization=bool(case.get("options", {}).get("sum_factorization", False)))
         for o in obs:
             res["evaluations"] += 1
             if o.status == "ok":
@@ -152,7 +153,7 @@ def run_case(case):
                 viol("rule-not-honoured", f"{o.itype}/{o.sid} entities {o.entities}: kernel differs from per-integral-rule reference: err={o.err:.3e} > {o.bound:.1e}; rules {o.info}")
             elif o.status == "unsupported":
                 count("oracle_unsupported")
-        if kind == "mix" and recipe["b"] == "rule_mix" and len(recipe["p"]["rules"]) == 2 and recipe["p"]["rules"][0] != recipe["p"]["rules"][1]:
+        if kind == "mix" and recipe["b"] == "rule_mix" and not case.get("options") and len(recipe["p"]["rules"]) == 2 and recipe["p"]["rules"][0] != recipe["p"]["rules"][1]:
             # discrimination: with the two rules swapped the reference must be visibly different
             r2 = dict(recipe, p=dict(recipe["p"], rules=list(recipe["p"]["rules"])[::-1]))
             b2 = corpus.build(r2)
@@ -224,6 +225,15 @@ def cases_for(tier, s):
         R.append({"kind": "mix", "recipe": {"b": "one_point_mix", "cell": cell, "p": {"itype": "exterior_facet" if cell != "interval" else "cell", "q_hi": 3, "q_lo": 1}}})
     R.append({"kind": "mix", "recipe": {"b": "rule_mix", "cell": "interval", "p": {"rules": [["GLL", 4], ["default", 4]], "shared": True}}})
     R.append({"kind": "mix", "recipe": {"b": "rule_mix", "cell": "quadrilateral", "p": {"rules": [["GLL", 3], ["default", 3]], "shared": False}}})
+    # the requested scheme under the sum_factorization option (tensor-product cells): integrands are not polynomial, so a
+    # different rule of the same degree is visible
+    for cell in ("quadrilateral", "hexahedron"):
+        for rules in ([["GLL", 3]], [["GLL", 2], ["default", 4]], [["Gauss-Jacobi", 3]], [["default", 3], ["GLL", 5]]):
+            if cell == "hexahedron" and tier == "quick" and len(rules) == 2:
+                continue
+            for sf in (True, False):
+                R.append({"kind": "mix", "recipe": {"b": "tp_rule_mix", "cell": cell, "tpmesh": True, "p": {"rules": rules, "bilinear": len(rules) == 1 and cell == "quadrilateral"}},
+                          "options": {"sum_factorization": sf}})
     for i, c in enumerate(R):
         c["seed"] = [s, 1100, i]
     return R
